@@ -281,26 +281,42 @@ let capture_mode inp outp =
         let left = words (String.sub line 0 bar) in
         let right = words (String.sub line (bar + 1) (String.length line - bar - 1)) in
         (match left with
-         | id :: p1 :: p2 :: cap :: tmo :: poll :: n1 :: k1 :: n2 :: k2 :: code :: _ ->
+         | id :: p1 :: p2 :: cap :: tmo :: poll :: n1 :: k1 :: n2 :: k2 :: code :: rest ->
              let i = int_of_string in
-             let c = { pol1 = policy_of p1; pol2 = policy_of p2; cap = z_of_int (i cap);
-                       timeout = z_of_int (i tmo); poll = z_of_int (i poll); pcap = z_of_int 65536;
-                       out1 = pattern 1 (i n1) k1.[0]; out2 = pattern 2 (i n2) k2.[0];
-                       ecode = (if code = "null" then None else Some (z_of_int (i code))) } in
+             let o1 = pattern 1 (i n1) k1.[0] and o2 = pattern 2 (i n2) k2.[0] in
+             let ec = if code = "null" then None else Some (z_of_int (i code)) in
+             let observed_txt = String.concat " " right in
+             (* with "caps=v0,..,vN" (ProcessCaps in declaration order) the configuration is derived by
+                the extracted mk_cfg from the host caps and the builder ("-" = timeout_ms() never called) *)
+             let cfg_opt =
+               match List.filter (fun w -> String.length w > 5 && String.sub w 0 5 = "caps=") rest with
+               | w :: _ ->
+                   let vals = List.map (fun s -> z_of_int (i s))
+                       (String.split_on_char ',' (String.sub w 5 (String.length w - 5))) in
+                   let b = { b_pol1 = policy_of p1; b_pol2 = policy_of p2;
+                             b_timeout = (if tmo = "-" then None else Some (z_of_int (i tmo))) } in
+                   mk_cfg (hc_of_list vals) b (z_of_int 65536) o1 o2 ec
+               | [] ->
+                   Some { pol1 = policy_of p1; pol2 = policy_of p2; cap = z_of_int (i cap);
+                          timeout = z_of_int (i tmo); poll = z_of_int (i poll); pcap = z_of_int 65536;
+                          out1 = o1; out2 = o2; ecode = ec } in
+             (match cfg_opt with
+              | None ->
+                  let ok = (match right with "err" :: "kind=spec" :: _ -> 1 | _ -> 0) in
+                  Printf.fprintf oc "%s judged=%d reached=%d observed=[%s] family=[refused by validate]\n" id ok ok observed_txt
+              | Some c ->
              let fam = Hashtbl.create 8 in
              List.iter (fun s ->
                match run_strategy c s with
                | Some r -> Hashtbl.replace fam (show_result c r) ()
                | None -> Hashtbl.replace fam "unfinished" ()) (strategies c);
              let fam_l = List.sort compare (Hashtbl.fold (fun k () acc -> k :: acc) fam []) in
-             let observed_txt = String.concat " " right in
              let judged, reached =
                match parse_observed c right with
                | Some r -> ((if outcome_ok c r then 1 else 0), (if Hashtbl.mem fam (show_result c r) then 1 else 0))
                | None -> (0, 0) in
-             (* every outcome the family produced must itself pass outcome_ok (sanity of the glue) *)
-             Printf.fprintf oc "%s judged=%d reached=%d observed=[%s] family=[%s]\n" id judged reached
-               observed_txt (String.concat "; " fam_l)
+             Printf.fprintf oc "%s judged=%d reached=%d observed=[%s] family=[%s] timeout=%d cap=%d poll=%d\n" id judged reached
+               observed_txt (String.concat "; " fam_l) (int_of_z c.timeout) (int_of_z c.cap) (int_of_z c.poll))
          | _ -> Printf.fprintf oc "? malformed\n")
   ) (read_lines inp);
   close_out oc
